@@ -351,10 +351,13 @@ func evaluate(c *Ctx, id string) {
 	}
 	c.anchorSeen = plain.seen
 	merged := plain
-	index := map[string]int{}
-	for i, o := range merged.obs {
-		index[o.Rule+"|"+o.Construct] = i
+	// several obligations may share a key (one per site): within a view a key holds only if all of
+	// them hold; across views a key holds if it holds on some view
+	inPlain := map[string]bool{}
+	for _, o := range merged.obs {
+		inPlain[o.Rule+"|"+o.Construct] = true
 	}
+	extraIdx := map[string]int{}
 	complete := len(plain.machine) == 0
 	used := []string{}
 	for _, v := range []string{"thread", "inline-new", "inline-pkg"} {
@@ -381,21 +384,51 @@ func evaluate(c *Ctx, id string) {
 				merged.machine = keep
 			}
 		}
+		viewOK := map[string]bool{}
+		viewRep := map[string]Obligation{}
+		var viewKeys []string
 		for _, o := range r.obs {
 			k := o.Rule + "|" + o.Construct
-			if i, ok := index[k]; ok {
+			if prev, seen := viewOK[k]; !seen {
+				viewKeys = append(viewKeys, k)
+				viewOK[k] = o.OK
+				viewRep[k] = o
+			} else if prev && !o.OK {
+				viewOK[k] = false
+				viewRep[k] = o
+			}
+		}
+		for i := range merged.obs {
+			o := &merged.obs[i]
+			k := o.Rule + "|" + o.Construct
+			if !o.OK && inPlain[k] && viewOK[k] {
+				rep := viewRep[k]
+				rep.Detail += " [decided on view " + v + "]"
+				*o = rep
+			}
+		}
+		for _, k := range viewKeys {
+			if inPlain[k] {
+				continue
+			}
+			o := viewRep[k]
+			if i, seen := extraIdx[k]; seen {
 				if !merged.obs[i].OK && o.OK {
 					o.Detail += " [decided on view " + v + "]"
 					merged.obs[i] = o
 				}
 				continue
 			}
-			if !o.OK {
-				// an obligation that exists only on an inlined view and fails there is
-				// an artefact of the expansion (the plain view never stated it)
+			if !o.OK && v == "inline-pkg" {
+				// an obligation that exists only on the view that expands pre-existing helpers, and
+				// fails there, is an artefact of the expansion: those helpers were not written under
+				// the anchor's rule and the program as written never stated the obligation
 				continue
 			}
-			index[k] = len(merged.obs)
+			// on `thread` / `inline-new` only code that is new relative to the reference inventory was
+			// expanded into the anchor: a site found there is the anchor's own (moved) code and the
+			// obligation stands, violated or not; a later view may still discharge it
+			extraIdx[k] = len(merged.obs)
 			o.Detail += " [decided on view " + v + "]"
 			merged.obs = append(merged.obs, o)
 		}
